@@ -21,7 +21,7 @@ RULE = ("(encoder level) for every setting of ET, DT and the register-addressed 
 ASSUMPTIONS = ["values whose encoding is the type's 'no value' sentinel (Integer 65535, Voltage/Current 6553.5, Long 2^32-1) are "
                "outside the readable domain: only the write part is asserted for them",
                "ES: only the register-addressed settings (eco-mode groups and switches; 011A/0239 over AA55 for v1, Modbus for v2)"]
-MUST = ["write_applied_but_answered_with_exception", "sensors_polled_before_settings", "write_after_recovered_fragment_loss", "switch_seen_in_its_group", "refused_writes", "refused_rmw_reads", "byte_setting_already_holds_value", "dt_phase_pairs", "encoder_values", "e2e_writes", "e2e_readbacks", "byte_settings_rmw", "negative_values", "multi_register_writes",
+MUST = ["overlapping_write_calls", "write_applied_but_answered_with_exception", "sensors_polled_before_settings", "write_after_recovered_fragment_loss", "switch_seen_in_its_group", "refused_writes", "refused_rmw_reads", "byte_setting_already_holds_value", "dt_phase_pairs", "encoder_values", "e2e_writes", "e2e_readbacks", "byte_settings_rmw", "negative_values", "multi_register_writes",
         "aa55_writes", "tcp_writes", "settings_covered"]
 EXHAUSTIVE = {"quick": False, "thorough": False}
 
@@ -427,6 +427,77 @@ def dt_pair_part(spec, part):
             part.violate("C17/DT/readback-differs/pair", f"DT pair (order {order}): read back {out} instead of A={vA}, B={vB}", case)
 
 
+def overlapping_writes_part(spec, part):
+    """two or three write_setting() calls on DIFFERENT settings of one inverter object overlap in time (an application applying a profile with
+    asyncio.gather; the inverter takes 0.2 s per answer): every setting still receives exactly one write carrying its value, reads back, and
+    nothing else changes"""
+    import asyncio
+    g = env.goodwe()
+    rnd = random.Random(spec["seed"])
+    for it in range(spec["n"]):
+        fam = rnd.choice(("ET", "ET", "DT", "ES"))
+        port = 8899 if fam == "ES" else rnd.choice((8899, 502))
+        sim = models.family_sim(fam, **({"fw": b"2225F"} if fam == "ES" else {}))
+        sim.delay = rnd.choice((0.2, 0.05, 0.6))
+        ka = rnd.random() < 0.5
+        pool = {"ET": [("grid_export_limit", 1234), ("battery_discharge_depth", 45), ("battery_capacity", 123), ("eco_mode_2_switch", -1),
+                       ("backup_supply", 1), ("fast_charging_soc", 77)],
+                "DT": [("grid_export_limit", 61), ("grid_export", 1), ("shadow_scan", 1)],
+                "ES": [("eco_mode_1_switch", -1), ("eco_mode_3_switch", 0), ("eco_mode_2_switch", -1)]}[fam]
+        chosen = rnd.sample(pool, min(len(pool), rnd.choice((2, 3))))
+        offs = [rnd.choice((0.0, 0.01, 0.1, 0.25)) for _ in chosen]
+        res = {}
+
+        async def flow(loop):
+            inv = models.family_cls(g, fam)("inv0", port, 0, 1, 1)
+            inv.set_keep_alive(ka)
+            await inv.read_device_info()
+            known = {x.id_: x for x in inv.settings()}
+            todo = [(sid, v, o) for (sid, v), o in zip(chosen, offs) if sid in known]
+            res["todo"] = [(sid, v, known[sid].offset) for sid, v, _ in todo]
+            w0 = len(sim.writes)
+
+            async def one(sid, v, off):
+                await asyncio.sleep(off)
+                try:
+                    await inv.write_setting(sid, v)
+                    return "ok"
+                except Exception as e:      # noqa
+                    return type(e).__name__
+            res["out"] = await asyncio.gather(*[one(*t) for t in todo])
+            res["writes"] = [(w[1], list(w[2])) for w in sim.writes[w0:]]
+            res["back"] = []
+            for sid, v, _ in todo:
+                try:
+                    res["back"].append(await inv.read_setting(sid))
+                except Exception as e:      # noqa
+                    res["back"].append(type(e).__name__)
+        run = engine.run_custom({("inv0", port): sim}, flow, vtime_cap=600, tx_cap=600)
+        part.evaluations += 1
+        case = {"overlap": True, "seed": spec["seed"], "i": it}
+        tagtxt = f"{fam} port={port} keep_alive={ka} answers after {sim.delay}s"
+        if run.stop or run.error is not None:
+            part.violate(f"C17/{fam}/run-failed", f"{tagtxt}: overlapping writes {chosen} at offsets {offs}: {run.stop or repr(run.error)[:120]}", case)
+            continue
+        if len(res.get("todo", [])) < 2:
+            continue
+        part.count("overlapping_write_calls")
+        part.see(f"overlap|{fam}|{port}|{ka}|{len(res['todo'])}")
+        for (sid, v, reg), how, back in zip(res["todo"], res["out"], res["back"]):
+            mine = [w for w in res["writes"] if w[0] == reg]
+            if how != "ok":
+                part.violate(f"C17/{fam}/write-raises/overlapping", f"{tagtxt}: write_setting('{sid}', {v}) overlapping with {[t[0] for t in res['todo']]}: {how}", case)
+            elif len(mine) != 1:
+                part.violate(f"C17/{fam}/write-transmitted-twice",
+                             f"{tagtxt}: write_setting('{sid}', {v}) overlapping with other write_setting calls (offsets {offs}): register {reg} received "
+                             f"{len(mine)} writes {mine[:3]} (all writes: {res['writes'][:6]})", case)
+            elif back != v:
+                part.violate(f"C17/{fam}/readback-differs/overlapping", f"{tagtxt}: write_setting('{sid}', {v}) overlapping with others: reads back {back!r}", case)
+        extra = [w for w in res["writes"] if w[0] not in {t[2] for t in res["todo"]}]
+        if extra:
+            part.violate(f"C17/{fam}/foreign-register-changed", f"{tagtxt}: overlapping writes {res['todo']}: registers {extra[:3]} were written as well", case)
+
+
 def plan(tier, seed):
     specs = []
     nsh = 4 if tier == "quick" else 16
@@ -434,6 +505,8 @@ def plan(tier, seed):
         specs.append({"mode": "enc", "seed": f"{seed}:C17:enc:{i}", "shards": nsh, "shard": i, "n": 300 if tier == "quick" else 6000,
                       "full": tier != "quick"})
     specs.append({"mode": "dtpair", "seed": f"{seed}:C17:dtpair", "n": 20 if tier == "quick" else 200})
+    for i in range(1 if tier == "quick" else 8):
+        specs.append({"mode": "overlap", "seed": f"{seed}:C17:overlap:{i}", "n": 60 if tier == "quick" else 600})
     per = 10 if tier == "quick" else 300
     for fam, port, variant in (("ET", 8899, "v2"), ("ET", 502, "v2"), ("ET", 8899, "v1"), ("ET", 502, "v1"), ("DT", 8899, "v2"),
                                ("DT", 502, "v2"), ("ES", 8899, "v1"), ("ES", 8899, "v2")):
@@ -446,13 +519,15 @@ def plan(tier, seed):
 
 def run_shard(spec):
     part = Part()
-    {"enc": encoder_part, "e2e": e2e_part, "dtpair": dt_pair_part}[spec["mode"]](spec, part)
+    {"enc": encoder_part, "e2e": e2e_part, "dtpair": dt_pair_part, "overlap": overlapping_writes_part}[spec["mode"]](spec, part)
     return part
 
 
 def replay(case):
     part = Part()
-    if case.get("dtpair"):
+    if case.get("overlap"):
+        overlapping_writes_part({"seed": case["seed"], "n": case["i"] + 1}, part)
+    elif case.get("dtpair"):
         dt_pair_part({"seed": case["seed"], "n": case["i"] + 1}, part)
     elif case.get("e2e"):
         e2e_part(case["spec"], part)
